@@ -1,13 +1,13 @@
-\* two plans on one Workstream, two callers, up to 5 calls, one crash
+\* one plan, three callers racing (every interleaving of up to 4 calls), one crash, both recovery modes, aging
 SPECIFICATION Spec
 CONSTANTS
-  Plans <- P2
-  Callers <- C2
-  MaxCalls = 5
+  Plans <- P1
+  Callers <- C3
+  MaxCalls = 4
   MaxCrashes = 1
   RecoveryModes <- BothModes
-  Ops <- CoreOps
-  Aging = FALSE
+  Ops <- AllOps
+  Aging = TRUE
   TwoStep = FALSE
 VIEW view
 INVARIANTS TypeOK OneRunner RunnerRegistered NoPanic AtMostOnce StartOnce MutexInv WaitTruth StaleRejected IndexLags
